@@ -102,6 +102,10 @@ def requirements(tier):
     for m in ("Range", "Azimut", "Elevation", "Doppler"):
         req[f"measure:{m}:legs1"] = 1000 * k
         req[f"measure:{m}:legs2"] = 1000 * k
+    req["measure:path:three-way"] = 100 * k
+    req["measure:path:relayed"] = 100 * k
+    for h in COORD_TYPES:
+        req["coords-given-as:" + h] = 10 * k
     for q in ("node", "midpoint", "wrap-midpoint", "zero", "two-pi", "negative", "gt-2pi", "random", "node-shifted"):
         req["maskq:" + q] = 1000 * k
     for n in range(2, 21):
@@ -318,12 +322,28 @@ def run_case(ctx, job, idx, rng, st):
     m0 = [list(mask0[0]), list(mask0[1])]
     if how0 == "create-tuple":
         m0 = (tuple(mask0[0]), tuple(mask0[1]))
+    coords_how = COORD_TYPES[(idx // 2) % len(COORD_TYPES)]
+    if coords_how.startswith("int"):
+        # whole degrees and metres given as integers (the natural way to type (45, 10, 100)); the oracle station follows
+        lat_deg, lon_deg, alt = int(round(max(-89, min(89, lat_deg)))), int(round(lon_deg)), int(round(alt))
+        lat, lon = math.radians(lat_deg), math.radians(lon_deg)
+        ost = geo.Station(lat, lon, float(alt), a, f)
+        base_w.update(lat_deg=lat_deg, lon_deg=lon_deg, alt_m=alt)
+    coords = {"tuple": lambda: (lat_deg, lon_deg, alt), "list": lambda: [lat_deg, lon_deg, alt],
+              "ndarray": lambda: np.array([lat_deg, lon_deg, alt], dtype=float),
+              "int-tuple": lambda: (lat_deg, lon_deg, alt), "int-ndarray": lambda: np.array([lat_deg, lon_deg, alt]),
+              "np-scalars": lambda: (np.float64(lat_deg), np.float64(lon_deg), np.float64(alt))}[coords_how]()
+    base_w["coordinates_given_as"] = coords_how
+    ctx.count("coords-given-as:" + coords_how)
+    given_copy = list(coords)
     try:
-        station = stations.create_station(name, (lat_deg, lon_deg, alt), mask=m0)
+        station = stations.create_station(name, coords, mask=m0)
     except Exception as exc:
         ctx.violation("C11/create-station-raises", dict(base_w, mask=mask0, how=how0, exc=repr(exc)), f"create_station raised {exc!r}")
         return
     ctx.count("mask-given:" + how0)
+    ctx.expect(list(coords) == given_copy, "C11/create-station-modifies-the-coordinates-given", dict(base_w, before=[float(x) for x in given_copy], after=[float(x) for x in coords]),
+               "create_station changed the caller's coordinate container")
 
     n_before = sum(v["count"] for v in ctx.violations.values())
     station_checks(ctx, job, idx, rng, st, station, ost, date, base_w)
@@ -571,7 +591,8 @@ def topo_checks(ctx, idx, rng, st, station, ost, date, targets, base_w, StateVec
 
         # ---- simulated measures on 4 targets per station -------------------------------------
         if j % 4 == idx % 4 or cls in ("zenith",) and j % 2 == 0:
-            measure_checks(ctx, rng, station, given, date, lk, (tol_pos, tol_el, tol_az, tol_rr), w2, measures, sfx)
+            measure_checks(ctx, rng, station, given, date, lk, (tol_pos, tol_el, tol_az, tol_rr), w2, measures, sfx,
+                           others=[e[0] for e in st["earlier"] if e[0] is not station])
 
 
 def revisit_check(ctx, rng, st, date, StateVector):
@@ -608,12 +629,25 @@ def revisit_check(ctx, rng, st, date, StateVector):
                f"station {station.name} registered {len(st['earlier'])} registrations ago no longer matches the ENU computation")
 
 
-def measure_checks(ctx, rng, station, given, date, lk, tols, w, measures, sfx):
+COORD_TYPES = ["tuple", "list", "ndarray", "int-tuple", "int-ndarray", "np-scalars", "tuple", "tuple"]
+
+
+def measure_checks(ctx, rng, station, given, date, lk, tols, w, measures, sfx, others=()):
     tol_pos, tol_el, tol_az, tol_rr = tols
-    for legs in (1, 2):
+    shapes = [("one-way", 1), ("two-way", 2)]
+    if others:
+        # paths that do not come back to the emitting station: one leg per hop all the same
+        shapes.append(rng.choice([("three-way", 2), ("relayed", 4)]))
+    for shape, legs in shapes:
         by_name = rng.random() < 0.5
         first = station.name if by_name else station
-        path = [first, "TARGET"] if legs == 1 else [first, "TARGET", first]
+        if shape in ("three-way", "relayed"):
+            other = rng.choice(list(others))
+            second = other.name if by_name else other
+            path = [first, "TARGET", second] if shape == "three-way" else [first, "TARGET", second, "TARGET", first]
+            ctx.count("measure:path:" + shape)
+        else:
+            path = [first, "TARGET"] if legs == 1 else [first, "TARGET", first]
         if rng.random() < 0.5:
             path = tuple(path)
         for cls_name in ("Range", "Azimut", "Elevation", "Doppler"):
@@ -626,7 +660,7 @@ def measure_checks(ctx, rng, station, given, date, lk, tols, w, measures, sfx):
             except Exception as exc:
                 ctx.violation(f"C11/measure-{cls_name.lower()}-raises", dict(wm, exc=repr(exc)), f"{cls_name}.from_orbit raised {exc!r}")
                 continue
-            ctx.count(f"measure:{cls_name}:legs{legs}")
+            ctx.count(f"measure:{cls_name}:legs{min(legs, 2)}")
             if cls_name == "Range":
                 ctx.resid("measure:range" + sfx, abs(val - legs * lk["range"]), legs * tol_pos, key="C11/measure-range-legs", witness=dict(wm, got=val, legs=legs),
                           msg=f"Range over {legs} leg(s) = {val!r}, topocentric range {lk['range']!r} x {legs}")
